@@ -59,6 +59,13 @@ func (d *dialer) Dial() (transport.Pipe, error) {
 	return d.hs.Wait()
 }
 
+// Close gives up a connection attempt that is still waiting for the peer's
+// handshake; the dialer cannot be used afterwards.
+func (d *dialer) Close() error {
+	d.hs.Close()
+	return nil
+}
+
 // SetOption implements a stub PipeDialer SetOption method.
 func (d *dialer) SetOption(n string, v interface{}) error {
 	d.lock.Lock()
